@@ -6,6 +6,8 @@ from fractions import Fraction
 
 import numpy as np
 
+from .. import shapes as S
+
 from .. import weaver_common as W
 from ..core import fmt_list, parse_rats, frac, err_kind, close, exact, floats
 
@@ -58,6 +60,23 @@ def gen_direct(rng):
             "method": m, "affine": affine}
 
 
+def gen_counts(rng):
+    """a longer series of small signed integer readings (differences of counters): many repeated values, among them
+    -1 and -2; another series that looks alike (same abscissae, readings swapped where CPython hashes them alike) is
+    interpolated just before"""
+    n = rng.randint(30, 48)
+    step = rng.choice([1, 2, Fraction(1, 2)])
+    x = [Fraction(i) * step for i in range(n)]
+    y = [Fraction(rng.choice([-2, -1, -1, -2, 0, 1, 2, 3])) for _ in range(n)]
+    pts = set(x)
+    for _ in range(rng.randint(1, 8)):
+        i = rng.randrange(n - 1)
+        pts.add((x[i] + x[i + 1]) / 2)
+    return {"kind": "direct", "x": [str(v) for v in x], "y": [str(v) for v in y], "new": [str(v) for v in sorted(pts)],
+            "method": rng.choice(["cubic", "spline", "linear"]), "affine": False, "hist": rng.choice(["hash_twin", "hash_twin", "refill"]),
+            "layout": "contig,contig,contig"}
+
+
 def gen_weaver(rng):
     c = W.gen_init(rng, 5, 12)
     c["kind"] = "weaver"
@@ -74,6 +93,8 @@ def gen_weaver(rng):
 
 def cases(rng, tier):
     na, nb = {"quick": (300, 120), "thorough": (4000, 1200)}.get(tier, (200, 80))
+    for _ in range(max(6, na // 25)):
+        yield gen_counts(rng)
     for _ in range(na):
         yield gen_direct(rng)
     for _ in range(nb):
@@ -102,17 +123,17 @@ def run_impl(c):
         try:
             with warnings.catch_warnings():
                 warnings.simplefilter("ignore")
-                na = np.array(floats(new))
+                na = S.arr(floats(new))
             if all(v.denominator == 1 for v in new):
-                na = np.array([int(v) for v in new])        # an integer-dtype grid (np.arange, a list of ints)
-            r = interpolate(np.array(floats(x)), np.array(floats(y)), na, method=c["method"])
+                na = S.arr([int(v) for v in new])        # an integer-dtype grid (np.arange, a list of ints)
+            xa, ya = S.arr(floats(x)), S.arr(floats(y))
+            r = interpolate(xa, ya, na, method=c["method"])
             if r is None:
                 return {"none": True}
             out = {"ok": [float(v) for v in r]}
             with warnings.catch_warnings():
                 warnings.simplefilter("ignore")
-                out["knots"] = [float(v) for v in interpolate(np.array(floats(x)), np.array(floats(y)), np.array(floats(x)),
-                                                             method=c["method"])]
+                out["knots"] = [float(v) for v in interpolate(xa, ya, np.array(floats(x)), method=c["method"])]
             return out
         except Exception as e:  # noqa
             return {"err": err_kind(e)}
